@@ -46,7 +46,7 @@ TYPE_ARGS = ['X', 'X as {}', 'X as ()', 'X as Unit', 'X as Foo', '(i32, i64)', '
              'X| repeat(bogus)', 'X| attribute(inline)', '0u8', '"s"', 'X<T>', 'X<', '', 'X|', 'X| vars()', 'X| skip_repeat, skip_repeat', 'X, E, F', 'X as {} as ()', 'a::b::C<D>, e::F| vars(x: {1}, y: {2}), ..z']
 OTHER = [('ghost', ['{ 1 }', 'X| { 1 }', 'X', '1', '0u8', '', 'X|', '{ }']), ('ghosts', ['a: { 1 }', 'X| a: { 1 }, 0: { 2 }', 'a.b@c: { 1 }', 'a: 1', 'A { .. }: { 1 }', 'A(..): { 1 }', '', '0u8: { 1 }', 'a@: { 1 }']),
          ('child', ['a', 'a.b', 'X| a.0', '0u8', '', 'a.', 'X|']), ('parent', ['', 'X', 'a, b', 'X| [map(c)] a, b: T', '[parent(a)] b: T', '[bogus(c)] a', '[parent(a)] [parent(b)] c', '0u8', '[map(0u8)] a']),
-         ('child_parents', ['a: A', 'a: A as ()', 'X| a.b: B, a: A', 'a', 'a: 0u8', '']), ('where_clause', ['T: Clone', 'X| T: Clone', '', '0u8']),
+         ('child_parents', ['a: A', 'a: A as ()', 'a: A as {}', 'a: A as Unit', 'X| a.b: B, a: A', 'a', 'a: 0u8', '']), ('where_clause', ['T: Clone', 'X| T: Clone', '', '0u8']),
          ('literal', ['1', 'X| 1', '', '"s"']), ('pattern', ['1..=2', '_', '']), ('type_hint', ['as ()', 'as {}', 'as Unit', 'as Foo', 'X| as ()', '']), ('as_type', ['i64', 'zz, i64', 'X| 0, i64', '']),
          ('repeat', ['', 'map', 'permeate()', 'permeate(), map, ghost', 'bogus', 'permeate', 'map,'])]
 
@@ -69,6 +69,9 @@ def parse_layer_panics(ctx):
         for a in argl:
             if nm in ('ghosts', 'child_parents', 'where_clause'):
                 cases.append((nm, '#[map(X)] #[%s(%s)] struct S { a: i32 }' % (nm, a), None))
+                if nm == 'child_parents':
+                    cases.append((nm, '#[map(X)] #[%s(%s)] struct S { #[child(a)] x: i32 }' % (nm, a), None))
+                    cases.append((nm, '#[map(X as ())] #[%s(%s)] struct S(#[child(a)] i32);' % (nm, a), None))
                 if nm == 'ghosts':
                     cases.append((nm, '#[map(X)] #[%s(%s)] enum E { A }' % (nm, a), None))
             elif nm in ('literal', 'pattern', 'type_hint'):
